@@ -76,6 +76,10 @@ def pathsplit(urlpath):
 
     urlpath = urlpath.strip("/")
 
+    # NOTE: a path made of slashes only has no segment
+    if not urlpath:
+        return []
+
     return urlpath.split("/")
 
 
